@@ -94,7 +94,7 @@ impl EXD {
 
                     for column in &exh.column_definitions {
                         cursor
-                            .seek(SeekFrom::Start((row_offset + column.offset as u32).into()))
+                            .seek(SeekFrom::Start(row_offset as u64 + column.offset as u64))
                             .ok()?;
 
                         subrow
@@ -108,8 +108,12 @@ impl EXD {
                 return if row_header.row_count > 1 {
                     let mut rows = Vec::new();
                     for i in 0..row_header.row_count {
-                        let subrow_offset = header_offset
-                            + (i as u32 * exh.header.data_offset as u32 + 2 * (i as u32 + 1));
+                        let subrow_offset = u32::try_from(
+                            header_offset as u64
+                                + i as u64 * exh.header.data_offset as u64
+                                + 2 * (i as u64 + 1),
+                        )
+                        .ok()?;
 
                         rows.push(read_row(subrow_offset)?);
                     }
@@ -146,7 +150,7 @@ impl EXD {
 
                 cursor
                     .seek(SeekFrom::Start(
-                        (row_offset + exh.header.data_offset as u32 + string_offset).into(),
+                        row_offset as u64 + exh.header.data_offset as u64 + string_offset as u64,
                     ))
                     .ok()?;
 
